@@ -488,6 +488,17 @@ class C11(CrossCfg):
         return None
 
 
+# wire replies that report a nothing-to-do outcome (C12): conditional writes whose condition is unmet, removals and
+# moves that found nothing, expiry commands on a missing key. (A nil reply of GETSET / a 0 of SADD is not one of them.)
+NOTHING_TO_DO_REPLY = {
+    b"set": {"_"}, b"setnx": {":0"}, b"msetnx": {":0"}, b"hsetnx": {":0"}, b"renamenx": {":0"}, b"smove": {":0"},
+    b"expire": {":0"}, b"pexpire": {":0"}, b"expireat": {":0"}, b"pexpireat": {":0"}, b"persist": {":0"},
+    b"linsert": {":-1", ":0"}, b"del": {":0"}, b"hdel": {":0"}, b"srem": {":0"}, b"zrem": {":0"}, b"lrem": {":0"},
+    b"lpop": {"_"}, b"rpop": {"_"}, b"spop": {"_"}, b"rpoplpush": {"_"},
+    b"zremrangebyrank": {":0"}, b"zremrangebyscore": {":0"},
+}
+
+
 class C12(CrossCfg):
     lean = ["Props.C12", "Audit.C12"]
     audit = ["C12"]
@@ -519,6 +530,13 @@ class C12(CrossCfg):
             failed_exec = bool(toks) and toks[0].startswith("*") and toks[-1].startswith("-") and w["args"] and w["args"][0].lower() == b"exec"
             if (refused or failed_exec) and w["pre"].strip() != w["post"].strip():
                 return ("violation", "a request answered with an error reply changed the tables (over the wire)")
+            # replies that say "there was nothing to do" (unmet condition, missing key / element / pivot)
+            name = w["args"][0].lower() if w["args"] else b""
+            ntd = NOTHING_TO_DO_REPLY.get(name)
+            if name == b"set" and any(a.lower() == b"get" for a in w["args"][3:]):
+                ntd = None      # SET ... GET replies the previous value: nil means "there was none", not "condition unmet"
+            if ntd is not None and len(toks) == 1 and toks[0] in ntd and not w["inMulti"] and w["pre"].strip() != w["post"].strip():
+                return ("violation", "a request whose reply says there was nothing to do (" + toks[0] + ") changed the tables (over the wire)")
             return None
         if "R" in v:      # a call with an invalid value type must be refused and leave no trace
             if v.get("A") == "0":
